@@ -22,6 +22,8 @@ def shards(tier, seed):
 
 def gen(rng, spec):
     r = rng.random()
+    if r < 0.07:
+        return search.extreme_rows(rng, search.gen_case(rng, beam=rng.random() < 0.5, max_n=5, family='softmax'))
     if r < 0.15:
         return search.gen_case(rng, beam=True, max_n=6)
     return search.gen_case(rng, max_n=7 if r < 0.5 else 5, sparse=r > 0.8)
